@@ -89,6 +89,7 @@ class Ctx:
         self.cur_case = None
         self.cur_index = None
         self.deaths = 0
+        self.recorded = []
         self._stdlib = None
 
     @property
@@ -130,6 +131,11 @@ class Ctx:
         if len(s) < 5000:
             s.add(item)
 
+    def record(self, req, limit=40):
+        """Keep a request for the sanitizer tiers (replayed by the worker without Python)."""
+        if len(self.recorded) < limit:
+            self.recorded.append(req)
+
     def violation(self, sig, detail, case=None):
         self.evaluations += 1
         v = self.violations.get(sig)
@@ -150,7 +156,7 @@ class Ctx:
             "evaluations": self.evaluations, "cov": self.cov, "trivial": self.trivial,
             "samples": self.samples, "skips": self.skips, "violations": self.violations,
             "extra": self.extra, "notes": {k: sorted(v, key=str) for k, v in self.notes.items()},
-            "deaths": self.deaths,
+            "deaths": self.deaths, "recorded": self.recorded,
         }
 
 
@@ -222,7 +228,7 @@ def sig_hash(sig):
 
 def merge(results):
     m = {"evaluations": 0, "cov": {}, "trivial": 0, "samples": [], "skips": {}, "violations": {},
-         "extra": {}, "notes": {}, "deaths": 0, "children_died": []}
+         "extra": {}, "notes": {}, "deaths": 0, "children_died": [], "recorded": [], "sanitizers": {}}
     for r in results:
         if "_child_died" in r:
             m["children_died"].append(r["_child_died"][-800:])
@@ -230,6 +236,7 @@ def merge(results):
         m["evaluations"] += r["evaluations"]
         m["trivial"] += r["trivial"]
         m["deaths"] += r["deaths"]
+        m["recorded"].extend(r.get("recorded", [])[:max(0, 200 - len(m["recorded"]))])
         for k, v in r["cov"].items():
             m["cov"][k] = m["cov"].get(k, 0) + v
         for s in r["samples"]:
@@ -268,6 +275,7 @@ def write_evidence(mod, tier, seed, merged, wall, unlisted, known_seen, inconclu
         "top_coverage_keys": sorted(merged["cov"].items(), key=lambda kv: -kv[1])[:25],
         "counters": merged["extra"],
         "notes": {k: v[:40] for k, v in merged["notes"].items()},
+        "sanitizer_tiers": merged.get("sanitizers", {}),
         "known_findings_observed": known_seen,
         "unlisted_violation_signatures": unlisted,
         "inconclusive": inconclusive,
@@ -311,6 +319,12 @@ def run_property(prop_id, tier, seed, nprocs=None, budget=None):
     merged = merge(results)
     if hasattr(mod, "finalize"):
         mod.finalize(merged, tier)
+    if hasattr(mod, "post_run"):
+        # sanitizer tiers etc.: may add violations (sig -> record) and evidence to `merged`
+        try:
+            mod.post_run(tier, seed, merged)
+        except Exception as e:  # never a violation
+            merged["sanitizers"]["post_run_error"] = "%s: %s" % (type(e).__name__, e)
     known = load_findings().get(prop_id, {})
     unlisted = []
     known_seen = []
